@@ -291,7 +291,8 @@ def directed(rng, k):
         # an agent changes the world and leaves; the idle rest of the game resets; a newcomer joins: the reset must give the
         # pristine world whoever acted before (the remaining agents have not taken a single step)
         cfg, draw = directed_config(rng, 2, 6)
-        S = CR.Session(cfg, draw=draw)
+        cfg["coordinator"]["agents"]["Defender"].pop("max_steps", None)       # the busy defender must not run out of steps (it would then
+        S = CR.Session(cfg, draw=draw)                                        # wait at the end barrier and its slot would stay taken)
         a, b, c = ("10.2.10.1", 1), ("10.2.10.2", 2), ("10.2.10.3", 3)
         S.connect(a); S.connect(b); S.settle()
         _join(S, a, "idle", "Attacker"); _join(S, b, "busy", "Defender"); S.settle()
